@@ -458,3 +458,38 @@ def test_K12_forced_flush_keeps_the_baseline_of_entries_it_did_not_write(tmp_pat
         cls._buffer.clear()
         cls._buffered_collections.clear()
         cls._CURRENT_BUFFER_SIZE = 0
+
+
+# --- K13 (C14.e): Sequence.index reads the list through one load per element -------------------------------------------
+def test_K13_index_reads_one_snapshot(tmp_path):
+    """[1, 2, 3].index(3) next to a writer that removes the first element may return 2 (before) or 1 (after),
+    but 3 is in the list at every moment: ValueError is caused only by the interleaving."""
+    import threading
+
+    from synced_collections.backends.collection_json import JSONCollection
+
+    fn = str(tmp_path / "l.json")
+    reader = JSONList(fn)
+    reader.reset([1, 2, 3])
+    writer = JSONList(fn)
+    orig = JSONCollection._load_from_resource
+    state = {"loads": 0, "done": False}
+    me = threading.current_thread()
+
+    def hooked(self):
+        data = orig(self)
+        if self is reader and threading.current_thread() is me and state["armed"]:
+            state["loads"] += 1
+            if state["loads"] == 2 and not state["done"]:
+                state["done"] = True
+                t = threading.Thread(target=lambda: writer.__delitem__(0))
+                t.start()
+                t.join(10)
+        return data
+
+    state["armed"] = True
+    JSONCollection._load_from_resource = hooked
+    try:
+        assert reader.index(3) in (1, 2)
+    finally:
+        JSONCollection._load_from_resource = orig
